@@ -595,6 +595,10 @@ def _collect_cmp(fn, S, term, out, depth=0):
     k = term[0]
     if k == 'call':
         cs = CallSite(fn, term[1], fn.blocks[term[1]]['t'])
+        if cs.matches('Atomic::load') and cs.t['a']:
+            a0 = S.operand(cs.t['a'][0])
+            out.append(Fact('place', None, S.describe(a0), set(), cmp=True, term=a0))
+            return
         out.append(Fact('call', cs, S.describe(term), set(), cmp=True, term=term))
         for a in cs.t['a']:
             _collect_cmp(fn, S, S.operand(a), out, depth + 1)
@@ -661,6 +665,10 @@ def _facts_for(fn, S, term, vals, mode, depth=0):
         if cs.matches(('Option::ok_or', 'Option::ok_or_else')) and a0 is not None:
             m = {'Ok': 'Some', 'Err': 'None'}
             return _facts_for(fn, S, a0, {m.get(v, v) for v in vals}, 'variant', depth + 1)
+        if cs.matches('Atomic::load') and a0 is not None:
+            # an atomic flag read: a fact about the field itself
+            out.append(Fact('place', None, S.describe(a0), vals, term=a0))
+            return out
         if cs.matches(('PartialEq::eq', 'PartialEq::ne', 'PartialOrd::lt', 'PartialOrd::le', 'PartialOrd::gt',
                        'PartialOrd::ge', 'Arc::ptr_eq', 'ptr::eq')):
             o = []
@@ -676,6 +684,30 @@ def _facts_for(fn, S, term, vals, mode, depth=0):
     if k == 'disc':
         # bool-ish switch over a discriminant value (rare)
         return out
+    if k == 'place' and term[1][0] == 'call' and tuple(term[2]) in (('@Continue', '.0'), ('@Ok', '.0'), ('@Some', '.0')):
+        # the payload of a Result/Option returned by a call: `f()? == true`, `Ok(true) => ..`
+        base = term[1]
+        cs = CallSite(fn, base[1], fn.blocks[base[1]]['t'])
+        if term[2][0] == '@Continue' and cs.matches('Try::branch') and cs.t['a']:
+            inner = S.operand(cs.t['a'][0])
+            # see through map_err & co
+            hops = 0
+            while inner[0] == 'call' and hops < 6:
+                ics = CallSite(fn, inner[1], fn.blocks[inner[1]]['t'])
+                if ics.matches(('Result::map_err', 'Result::as_ref', 'Option::as_ref', 'Option::ok_or', 'Option::ok_or_else')) and ics.t['a']:
+                    inner = S.operand(ics.t['a'][0])
+                    hops += 1
+                else:
+                    break
+            if inner[0] == 'call':
+                ics = CallSite(fn, inner[1], fn.blocks[inner[1]]['t'])
+                out.append(Fact('call', ics, S.describe(inner), vals, term=inner))
+                return out
+            out.append(Fact('place', None, S.describe(inner), vals, term=inner))
+            return out
+        if term[2][0] != '@Continue':
+            out.append(Fact('call', cs, S.describe(base), vals, term=base))
+            return out
     if k in ('place', 'arg', 'phi', 'unknown'):
         out.append(Fact('place', None, S.describe(term), vals, term=term))
         # a field of the result of a call is also a (weaker) fact about the call: comparison-like
@@ -1240,3 +1272,12 @@ def adt_contains(facts, adt_path, target_pred, _seen=None, _memo=None):
                 break
     _memo[adt_path] = res
     return res
+
+
+def lock_class_of_call(fn, bb):
+    """class of the lock acquired by the lock()/read()/write() call terminating bb."""
+    t = fn.blocks[bb]['t']
+    S = sym(fn)
+    if not t['a']:
+        return '?'
+    return S.describe(S.operand(t['a'][0]))
